@@ -46,3 +46,27 @@ Lemma svc_unnamed_sock_roundtrip_refuted :
 Proof.
   exists (VSock 281474976710657 (HS 65535) 80). vm_compute. repeat split; reflexivity.
 Qed.
+
+(** the repaired trailing-comma acceptance of the TXT record parser:
+    "scion=v1;[1-1,10.0.0.1]," was accepted by the original loop *)
+Definition s_txt_trailing : str :=
+  SCION_TXT_PREFIX ++ [91; 49; 45; 49; 44] ++ s_10_0_0_1 ++ [93; 44].
+Lemma original_txt_trailing_comma_accepted :
+  parse_kind_gen false O1 K_TXT s_txt_trailing = Ok (VList [(281474976710657, H4 167772161)])
+  /\ exact_ok O1 K_TXT s_txt_trailing (VList [(281474976710657, H4 167772161)]) = false.
+Proof. vm_compute. split; reflexivity. Qed.
+Lemma repaired_txt_trailing_comma_rejected : parse_kind O1 K_TXT s_txt_trailing = Err (ETxt 2).
+Proof. vm_compute. reflexivity. Qed.
+
+(** why [parse_never_panics] needs [utf8_ok]: on a byte list that is not UTF-8 ('[' followed by a
+    continuation byte) the model's slice is off a char boundary.  Such a [&str] cannot exist in
+    safe Rust. *)
+Lemma invalid_utf8_slice :
+  utf8_ok [91; 128; 93; 58; 49] = false /\ parse_kind O1 K_SOCK [91; 128; 93; 58; 49] = Panic P_SLICE.
+Proof. vm_compute. split; reflexivity. Qed.
+
+(** why [asn_display_parse] is stated for 48-bit values: the tuple field of [Asn] is public,
+    [Display] masks each group to 16 bits, so Asn(2^48) prints as "0:0:0" *)
+Lemma asn_out_of_range_display :
+  display_asn (2 ^ 48) = [48; 58; 48; 58; 48] /\ parse_asn (display_asn (2 ^ 48)) = Ok 0.
+Proof. vm_compute. split; reflexivity. Qed.
